@@ -28,6 +28,7 @@ FUNCS = [
     ("distributed_shampoo/utils/shampoo_hsdp_distributor.py", "HSDPDistributor._merge_and_block_parameters"),
     ("distributed_shampoo/utils/shampoo_hsdp_distributor.py", "HSDPDistributor._merge_and_block_gradients"),
     ("distributed_shampoo/utils/shampoo_hsdp_distributor.py", "HSDPDistributor.update_params"),
+    ("distributed_shampoo/utils/shampoo_hsdp_distributor.py", "HSDPDistributor.merge_and_block_gradients"),
     ("distributed_shampoo/utils/shampoo_fsdp_utils.py", "compile_fsdp_parameter_metadata"),
 ]
 TRUSTED = [
@@ -42,7 +43,7 @@ EXPLANATION = "FSDP/HSDP blocking = default blocking of the recovered pieces wit
 
 def cases(tier):
     cs = [f"blocking/{c}/{lay}" for c in ("fsdp", "hsdp") for lay in ("L0", "L1", "L2")]
-    cs += ["metadata"] + D.update_params_cases("hsdp")
+    cs += ["metadata", "ribare/hsdp"] + D.update_params_cases("hsdp")
     return cs
 
 
@@ -271,6 +272,8 @@ def run_case(case, tier, seed):
         return _blocking_case(case)
     if case == "metadata":
         return _metadata_case(case)
+    if case.startswith("ribare/"):
+        return D.run_ri_bare(case, "hsdp")
     return D.run_update_params(case)
 
 
